@@ -640,8 +640,9 @@ def execute(case, keep_text=False):
                         continue
                     ok, msg = t_close(res[2], rr[2], res[2])
                     out.bump('steps', 'R4_checked')
-                    if not ok or not np.allclose(res[1], rr[1], rtol=1e-11,
-                                                 atol=0):
+                    if not ok or not np.allclose(
+                            res[1], rr[1], rtol=1e-4 if late[0] else 1e-11,
+                            atol=0):
                         viol('composition', 'R4:zero-vs-absent',
                              'spectrum with %s at zero abundance differs from '
                              'a model built without it: %s' % (mol, msg), step)
